@@ -10,7 +10,8 @@ import time
 
 VERIF = os.path.dirname(os.path.abspath(__file__))
 REPO = "/repo"
-WORK = os.path.join(VERIF, "work")
+WORK = os.path.join(VERIF, "work")      # scratch of the running check (./check points it at work/run/<ID>-<tier>: checks may run concurrently)
+WORKROOT = WORK                         # shared: cargo target directories, generated modules
 GEN = os.path.join(WORK, "gen")
 SPEC = os.path.join(VERIF, "spec")
 HARNESS = os.path.join(VERIF, "harness")
@@ -49,7 +50,7 @@ def build_harness():
     global _built
     if _built:
         return
-    os.makedirs(WORK, exist_ok=True)
+    os.makedirs(WORKROOT, exist_ok=True)
     lock = os.path.join(HARNESS, "Cargo.lock")
     if not os.path.exists(lock):
         shutil.copy(os.path.join(REPO, "Cargo.lock"), lock)
@@ -73,7 +74,7 @@ def build_binary():
     t0 = time.time()
     p = sh(["cargo", "build", "--offline", "-p", "emulator-2a", "--features", "verif-hooks"],
            cwd=REPO, timeout=3000, check=False,
-           env={"CARGO_TARGET_DIR": os.path.join(WORK, "target-bin"),
+           env={"CARGO_TARGET_DIR": os.path.join(WORKROOT, "target-bin"),
                 # dev profile (overflow checks and debug assertions stay on), lightly optimised: the TUI is drawn ~10^5 times
                 "CARGO_PROFILE_DEV_OPT_LEVEL": "1", "CARGO_PROFILE_DEV_DEBUG": "0"})
     if p.returncode != 0:
@@ -108,7 +109,9 @@ def gen_rom():
     path = os.path.join(GEN, "MicroRom.tla")
     old = open(path).read() if os.path.exists(path) else None
     if old != txt:
-        open(path, "w").write(txt)
+        tmp = path + ".%d.tmp" % os.getpid()
+        open(tmp, "w").write(txt)
+        os.replace(tmp, path)                  # atomic: a concurrently running TLC never reads a partial module
     return words
 
 
